@@ -1637,6 +1637,12 @@ fn mode_run(args: &[String]) -> i32 {
         .unwrap_or(if tier == "thorough" { 10 } else { 100 });
     let max_wall: u64 = arg_value(args, "--max-wall-s").and_then(|s| s.parse().ok()).unwrap_or(if tier == "thorough" { 2000 } else { 100 });
     println!("simhist: VERIF_SEED={} tier={} episodes={} (systematic {}) jobs={}", verif_seed, tier, episodes, n_sys, jobs);
+    if has_flag(args, "--cold-only") {
+        // experiments: the cold-start sweep by itself
+        let (stats, v, errs) = cold_sweep(verif_seed, jobs);
+        println!("simhist: cold-start sweep {} violation {:?} errors {:?}", stats, v.as_ref().map(|x| x["violation"].clone()), errs);
+        return if !errs.is_empty() { 2 } else if v.is_some() { 1 } else { 0 };
+    }
 
     // scenario episodes first (the long ones should not be the last to start), then the numbered episodes
     let n_scen: u64 = if has_flag(args, "--no-scenarios") { 0 } else { SCENARIOS };
